@@ -198,7 +198,7 @@ def FcaSpec (b : Buf) (prevI prevT : Nat) (es : List Entry) : FcaPlan → Prop
       (b.mem = [] → k = b.purgedI + 1)) ∧
     b.abs.fca prevI prevT es = (b.abs.append tail, lastId es)
   | .replace d tail =>
-    tail.length ≤ es.length ∧ lastId tail = lastId es ∧ termsPos tail = true ∧
+    tail ≠ [] ∧ tail.length ≤ es.length ∧ lastId tail = lastId es ∧ termsPos tail = true ∧
     b.minIdx ≤ d ∧ d ≤ b.maxIdx ∧ b.mem ≠ [] ∧ contigFrom d tail = true ∧
     b.abs.fca prevI prevT es =
       ({ b.abs with ents := b.mem.filter (fun e => decide (e.index < d)) ++ tail }, lastId es)
@@ -401,7 +401,7 @@ theorem fcaSlow_spec (h : b.Inv) {prevI prevT : Nat} {es : List Entry} (r : ReqO
           have := h.max_zero hx
           have := (hmin d hdmem).2
           omega
-        refine ⟨hlen, ?_, ?_, (hmin d hdmem).1 hne, hle, hne, ?_, ?_⟩
+        refine ⟨by simp, hlen, ?_, ?_, (hmin d hdmem).1 hne, hle, hne, ?_, ?_⟩
         · rw [← hd]; exact lastId_drop hdne
         · rw [← hd]; exact termsPos_drop r.pos _
         · have := contigFrom_drop r.contig pos
